@@ -24,7 +24,7 @@ TECHNIQUE = {
     "C11": _T_BASE + _T_TR.format(what="the bounded frame-flow classes (serialize/flows.py)") + _T_DIFF,
     "C08": _T_BASE + _T_TR.format(what="delimited_jelly_hint (proved equal to the model's detector for every byte string)") + _T_DIFF,
     "C12": _T_BASE + _T_TR.format(what="split_iri") + _T_DIFF + "; process / thread / hash-seed runs",
-    "C13": _T_BASE + _T_TR.format(what="the validators of options.py (type compatibility for all pairs, flat, preset and version post-init)") + _T_DIFF,
+    "C13": _T_BASE + _T_TR.format(what="the validators of options.py (type compatibility for all pairs, flat, preset and version post-init) and Decoder.validate_stream_options (a later options row against the header)") + _T_DIFF,
 }
 _T_DEFAULT = _T_BASE + _T_DIFF
 NOT_YET = {}
